@@ -1,9 +1,12 @@
 (** C07 — any specification-valid foreign volume is read correctly.  C07_type is about the GENERATED parse_header /
     __determine_fat_type code: for every boot sector that uses the 16-bit FAT size field exactly for FAT12/16 (what the
     specification prescribes) the width pyfatfs picks is the width of the cluster-count rule — both sides of 4085 and
-    65525 are instances.  C07_fat: decoding of every FAT entry is the specification's formula. *)
+    65525 are instances.  C07_fat: decoding of every FAT entry is the specification's formula.  C07_dir_slots: for
+    ARBITRARY directory bytes — any foreign layout — the entries the reader returns are, as short entries, exactly the
+    live 32-byte slots (not deleted, not long-name slots) in order up to the end mark: nothing invented, nothing dropped;
+    which long name gets attached to them is the part checked on foreign images (straddling sets, orphans, bad checksums). *)
 From Coq Require Import ZArith List Bool.
-From PyFatV Require Import Base.Bytes Base.PyEnv Gen.Pure Model.Codec Proofs.FatCodec Proofs.Geometry.
+From PyFatV Require Import Base.Bytes Base.PyEnv Gen.Pure Model.Codec Model.Dir Proofs.FatCodec Proofs.Geometry Proofs.DirCodec.
 Import ListNotations.
 Open Scope Z_scope.
 
@@ -22,3 +25,13 @@ Proof. exact (conj parse12_spec (conj parse16_spec (conj parse32_spec parse12_le
 Print Assumptions C07_fat.
 (* C07_dir / C07_tree (not proved): the slot scanner returns exactly the live entries of every directory the independent
    formatter can lay down; checked on generated foreign images against their construction. *)
+
+Theorem C07_dir_slots : forall f b pend acc acc' pend' stop,
+  scan_slots f b pend acc = Ok (acc', pend', stop) ->
+  map strip_lfn acc' = map strip_lfn acc ++ map parse_short (live_slots f b).
+Proof. exact scan_returns_live_slots. Qed.
+Print Assumptions C07_dir_slots.
+Example C07_dir_slots_example :
+  let del := 229 :: repeat 65 31 in let a := repeat 66 11 ++ [32] ++ repeat 0 20 in let lf := [65] ++ repeat 97 10 ++ [15] ++ repeat 0 20 in
+  live_slots 10 (del ++ lf ++ a ++ repeat 0 32 ++ a) = [a].
+Proof. vm_compute. reflexivity. Qed.
